@@ -157,7 +157,7 @@ def _replay_child(mod, ob, conn):
         conn.close()
 
 
-def safe_replay(mod, ob, timeout=600):
+def safe_replay(mod, ob, timeout=420):
     """native replay in a forked child: a crash of native code (matid.ext) must not take the checker down"""
     import multiprocessing as mp
 
@@ -175,7 +175,8 @@ def safe_replay(mod, ob, timeout=600):
     p.join(5)
     if p.is_alive():
         p.kill()
-        return {"reproduced": False, "error": "replay timed out"}
+        # the native families finish in seconds on a healthy tree: not terminating is itself a failure to 'return normally'
+        return {"reproduced": True, "observed": "the native replay of the property on the real code did not terminate within %d s (normally seconds)" % timeout}
     if res is None:
         return {"reproduced": True, "observed": "native replay crashed the interpreter (exit code %s) - e.g. segmentation fault in matid.ext" % p.exitcode}
     return res
